@@ -220,7 +220,7 @@ class GroupbyChunks(Harness):
                        "1-3 contigs in genome order x every way to cut the stream into chunks (8) x {groupby on the stream, "
                        "iter_chromosomes on the stream}",
               "thorough": "5 entries (16 chunkings)"}
-    assumptions = ("entries of one contig are contiguous and contigs come in genome order (precondition of the property)",)
+    assumptions = ("entries of one contig are contiguous; contigs come in genome order except in the encoded-column skeletons of groupby",)
 
     def skeletons(self, tier, seed):
         n = 4 if tier == "quick" else 5
@@ -235,6 +235,20 @@ class GroupbyChunks(Harness):
                         if len(chunks) <= 2:
                             # the same with a table whose contig column is declared `str` (ragged text: another change detector)
                             out.append(dict(n=n, contigs=contigs, chunks=chunks, api="groupby", col="str"))
+        # the contig column encoded against the genome (as Genome.get_intervals(...).as_stream() delivers it), contigs in ANY order: groupby
+        # itself only joins neighbours with the same key, whatever the order (the order check belongs to iter_chromosomes)
+        for contigs in ([2, 2, 0, 0], [1, 0, 0, 2], [2, 1, 0, 0], [0, 2, 1, 1], [0, 0, 1, 2], [1, 1, 1, 1]):
+            contigs = contigs + [contigs[-1]] * (n - 4)
+            for chunks in compositions(n):
+                if tier == "thorough" or len(chunks) <= 2:
+                    out.append(dict(n=n, contigs=contigs, chunks=chunks, api="groupby", col="encoded"))
+        # a streamed bedGraph turned into a track and summed (Genome.get_track(stream), compute): data in genome order gives the sum of all
+        # entries; a contig that comes back after a later one, or an unknown name (index 3), also AFTER the data of the last contig, must raise
+        for contigs in ([0, 0, 1, 2], [0, 2, 2, 2], [1, 1, 1, 1], [0, 2, 1, 1], [2, 2, 0, 0], [0, 1, 2, 3], [2, 3, 3, 3], [1, 2, 0, 0]):
+            contigs = contigs + [contigs[-1]] * (n - 4)
+            for chunks in compositions(n):
+                if tier == "thorough" or len(chunks) <= 2 or chunks == [1] * n:
+                    out.append(dict(n=n, contigs=contigs, chunks=chunks, api="track_sum"))
         return out
 
     def inputs(self, skel, V):
@@ -247,6 +261,19 @@ class GroupbyChunks(Harness):
         from bionumpy.streams import NpDataclassStream
         from bionumpy.streams.groupby_func import groupby
         n = skel["n"]
+        if skel["api"] == "track_sum":
+            import bionumpy as bnp
+            from bionumpy.datatypes import BedGraph
+            from bionumpy.computation_graph import compute
+            names = [(self.CONTIGS + ["zz"])[c] for c in skel["contigs"]]
+            pos = [3 * sum(1 for c in skel["contigs"][:i] if c == skel["contigs"][i]) for i in range(n)]     # records of a contig side by side
+            chunks, k = [], 0
+            for sz in skel["chunks"]:
+                chunks.append(BedGraph(names[k:k + sz], pos[k:k + sz], [p + 2 for p in pos[k:k + sz]], ctx.arr([x[f"w{i}"] for i in range(k, k + sz)], "int64")))
+                k += sz
+            g = bnp.Genome.from_dict({c: 20 for c in self.CONTIGS})
+            track = g.get_track(NpDataclassStream(iter(chunks), dataclass=BedGraph))
+            return dict(total=ctx.lst(compute(track.sum())))
         names = [self.CONTIGS[c] for c in skel["contigs"]]
         starts = [x[f"s{i}"] for i in range(n)]
         stops = [x[f"s{i}"] + x[f"w{i}"] for i in range(n)]
@@ -263,7 +290,12 @@ class GroupbyChunks(Harness):
             Table = Interval
         chunks, k = [], 0
         for sz in skel["chunks"]:
-            chunks.append(Table(names[k:k + sz], ctx.arr(starts[k:k + sz], "int64"), ctx.arr(stops[k:k + sz], "int64")))
+            col = names[k:k + sz]
+            if skel.get("col") == "encoded":
+                import bionumpy.genomic_data.genome_context as gcm
+                from bionumpy.encoded_array import as_encoded_array
+                col = as_encoded_array(col, gcm.GenomeContext.from_dict({c: 20 for c in self.CONTIGS}).encoding)
+            chunks.append(Table(col, ctx.arr(starts[k:k + sz], "int64"), ctx.arr(stops[k:k + sz], "int64")))
             k += sz
         stream = NpDataclassStream(iter(chunks), dataclass=Table)
         if skel["api"] == "groupby":
@@ -287,7 +319,18 @@ class GroupbyChunks(Harness):
             exp = [(c, d.get(c, [])) for c in self.CONTIGS]
         return exp
 
+    def _track_ok(self, skel):
+        """data order compatible with the genome: known names, contigs contiguous and in genome order"""
+        cs = [c for i, c in enumerate(skel["contigs"]) if i == 0 or skel["contigs"][i - 1] != c]
+        return all(c < 3 for c in cs) and cs == sorted(set(cs))
+
     def post(self, skel, x, out):
+        if skel["api"] == "track_sum":
+            if isinstance(out, Exc):
+                return not self._track_ok(skel)          # an error is due exactly when the order / the names do not fit the genome
+            if not self._track_ok(skel):
+                return False                             # a result although entries cannot be placed: entries were dropped silently
+            return TI(out["total"]) == 2 * sum([x[f"w{i}"].t for i in range(skel["n"])], z3.IntVal(0))
         if isinstance(out, Exc):
             return False
         exp = self._expected(skel)
@@ -304,6 +347,15 @@ class GroupbyChunks(Harness):
         return z_and(conj)
 
     def oracle(self, skel, cx, cout):
+        if skel["api"] == "track_sum":
+            names = [(self.CONTIGS + ["zz"])[c] for c in skel["contigs"]]
+            desc = f"bedGraph stream with contigs {names} (genome {self.CONTIGS}) cut into chunks of sizes {skel['chunks']}, values {[cx[f'w{i}'] for i in range(skel['n'])]} on 2 bases each"
+            if isinstance(cout, Exc):
+                return None if not self._track_ok(skel) else f"{desc}: get_track(...).sum() raised {cout}"
+            if not self._track_ok(skel):
+                return f"{desc}: get_track(...).sum() = {cout['total']} although the contig order / names do not fit the genome (entries dropped without an error)"
+            exp = 2 * sum(cx[f"w{i}"] for i in range(skel["n"]))
+            return None if float(cout["total"]) == exp else f"{desc}: get_track(...).sum() = {cout['total']}, expected {exp}"
         if isinstance(cout, Exc):
             return f"{skel['api']} over chunks {skel['chunks']} of contigs {[self.CONTIGS[c] for c in skel['contigs']]} raised {cout}"
         exp = [(nm, [(cx[f"s{i}"], cx[f"s{i}"] + cx[f"w{i}"]) for i in idx]) for nm, idx in self._expected(skel)]
